@@ -524,7 +524,36 @@ def r13(ctx):
         raise AnalysisBroken('C18.R13: erase guarded by an sscanf not found in RequestImpl::add')
 
 
+def r14(ctx):
+    ctx.rule('C18.R14', 'the parts of a topic template are classified the same way everywhere: StringReplacer stores a constant '
+             'part with a negative index and a field with its index 0 (circuit), 1 (name), 2 (field)...; every comparison of '
+             'that index with 0 in stringhelper.cpp is a sign test (< 0 or >= 0). A test "> 0" takes %circuit for a constant: '
+             'the matchability check then accepts templates whose fields are adjacent, and a topic cannot be mapped back',
+             minimum=4)
+    import re
+    fb = ctx.fb
+    n = 0
+    seen = set()
+    for fn in fb.functions:
+        if not fn.relfile.startswith('src/lib/ebus/stringhelper.') or not fn.nodes or (fn.name, fn.sig) in seen:
+            continue
+        seen.add((fn.name, fn.sig))
+        for x, v in sorted(fn.nodes.items()):
+            if v['k'] != 'BinaryOperator' or v.get('op') not in ('<', '<=', '>', '>=', '==', '!='):
+                continue
+            lk, rk = fn.key(v['lhs']), fn.key(v['rhs'])
+            if not (lk.endswith('.second') and fn.val(v['rhs']) == 0 or rk.endswith('.second') and fn.val(v['lhs']) == 0):
+                continue
+            n += 1
+            ctx.touch(fn)
+            op = v['op'] if lk.endswith('.second') else {'<': '>', '>': '<', '<=': '>=', '>=': '<='}.get(v['op'], v['op'])
+            ctx.ob('C18.R14', fn, x, op in ('<', '>='), 'kind test of a template part in %s' % fn.name.split('::')[-1], 'index %s 0' % op)
+    if n < 4:
+        raise AnalysisBroken('C18.R14: only %d kind tests found in stringhelper.cpp' % n)
+
+
 def run(ctx):
+    r14(ctx)
     r13(ctx)
     r12(ctx)
     r9(ctx)
